@@ -534,6 +534,8 @@ def shrink(h, entry):
         return best, None
     # smaller image / sizes, asking for every request again
     for _ in range(5):
+        if core.over_budget():
+            break
         cands = []
         iw, ih = best["img"]["size"]
         for dw, dh in ((1, 0), (0, 1), (0, 2)):
